@@ -298,6 +298,17 @@ theorem C06_blocks_runs (data : List Int) (hd : data ≠ []) (minLen : Nat) (max
 example : blocks [5, 5, 0, 0, 0, 7] 2 none false false = [[0, 1], [2, 3, 4]] ∧
     blocks [5, 5, 0, 0, 0, 7] 2 none false true = [[0, 1]] := by decide
 
+
+/-- **wrap-around** (`wrap=True`) when nothing is filtered (`min_len ≤ 1`, no `max_len`, `only_nonzero=False`): the
+    code returns the specification - the runs as they are when the first and last value differ or there is a single
+    run; otherwise the last and the first run joined into one block (placed first) followed by the runs in
+    between.  With filters the two listed findings apply (`C06_blocks_wrap_witnesses`) -/
+theorem C06_blocks_wrap_unfiltered_partial (data : List Int) (hd : data ≠ []) (minLen : Nat) (hm : minLen ≤ 1) :
+    blocks data minLen none true false = blocksSpec data minLen none true false :=
+  blocks_wrap_unfiltered data hd minLen hm
+
+example : blocks [7, 7, 1, 2, 7] 1 none true false = [[4, 0, 1], [2], [3]] := by decide
+
 /-- the two wrap-around defects of the current source (known findings), as theorems about the model:
     an all-equal array whose single run is filtered out comes back with every index twice, and
     `max_len` is not applied to the merged wrap-around run -/
